@@ -5,7 +5,7 @@
     the refutations.  Only statements; proofs are [exact <lemma>] or a
     computation on a concrete witness. *)
 Require Import AT.Model.Base AT.Model.Heap AT.Model.Mutate AT.Spec.MutSpec.
-Require AT.Proofs.MutParent AT.Proofs.MutChildren.
+Require AT.Proofs.MutParent AT.Proofs.MutChildren AT.Proofs.MutRestore.
 Import AT.Proofs.MutParent AT.Proofs.MutChildren.
 
 (** the full statement, kept visible: every refusal and every pre-hook veto of
@@ -33,6 +33,32 @@ Theorem C03_parent_guarded : forall typed asrt faults n v h r s',
     heap_of s' = h.
 Proof. exact set_parent_atomic. Qed.
 Print Assumptions C03_parent_guarded.
+
+(** a positive boundary inside the attach phase: when _pre_attach_children (the
+    first hook after all former children were detached) vetoes and no other hook
+    raises, the children assignment propagates that exception and EVERY link is
+    as before - the rollback re-attaches the former children in their order.
+    (The fault-free run theorems are transferred to the two fault-free phases of
+    the faulted call by Proofs/FaultExt.v: a run consults its fault oracle only
+    between the counter it starts with and the one it ends with.) *)
+Theorem C03_children_pre_attach_veto_restores : forall typed asrt faults fu n xs s,
+  let h := heap_of s in
+  Inv h -> n < length h -> NoDup xs ->
+  let i0 := length (fst (log_del_children h n)) + cnt s in
+  (forall i k m, faults i k m = true -> i = i0) ->
+  faults i0 PreAttachChildren n = true ->
+  let r := set_children typed asrt faults (S (S fu)) n (CList (map VNode xs)) s in
+  fst r = Err (HookExn i0) /\ heap_of (snd r) = h.
+Proof. exact AT.Proofs.MutRestore.pre_attach_children_veto_restores. Qed.
+Print Assumptions C03_children_pre_attach_veto_restores.
+(** non-vacuity: node 0 with children [1; 2], the assignment [0.children = [2; 1]],
+    the only raising hook is the _pre_attach_children invocation (index 6) *)
+Example C03_restore_example :
+  let h := attach_links (attach_links (init 3) 1 0) 2 0 in
+  let faults := fun (i : nat) (_ : hookkind) (_ : id) => Nat.eqb i 6 in
+  let r := set_children true false faults reentry_fuel 0 (CList [VNode 2; VNode 1]) (start h) in
+  length (fst (log_del_children h 0)) + 0 = 6 /\ fst r = Err (HookExn 6) /\ heap_eqb (heap_of (snd r)) h = true.
+Proof. vm_compute. repeat split. Qed.
 
 (** ... and that guard is the exact boundary: a _pre_attach veto on a MOVE
     leaves the node detached (KF-C03-1) *)
